@@ -38,6 +38,66 @@ class _P(Policy):
         return fn.get("name") not in VOCAB
 
 
+def no_overrides(chk, fb, RID, trait_path, methods, what):
+    """The provided (default) methods of a crate trait are the single implementation: no impl for a crate type overrides them."""
+    impls = [i for i in fb.impls if i.get("trait_path") == trait_path]
+    if not impls:
+        chk.violation(RID, "anchor:%s" % trait_path, "no impl of %s found" % trait_path)
+        return
+    bad = []
+    for i in impls:
+        for it in i.get("items", []):
+            nm = (it if isinstance(it, str) else (it.get("name") or it.get("path", ""))).rsplit("::", 1)[-1]
+            if nm in methods:
+                bad.append((i["self_ty"], nm, i.get("span")))
+    if bad:
+        for st, nm, sp in bad:
+            chk.violation(RID, "override:%s:%s" % (st.split("<")[0].split("::")[-1], nm), "%s overrides %s::%s: %s" % (st, trait_path.split("::")[-1], nm, what), loc(sp) if sp else None)
+    else:
+        chk.ok(RID, "%s: provided methods %s are not overridden by any impl" % (trait_path.split("::")[-1], sorted(methods)), "%d impls" % len(impls))
+
+
+def lift_invariant(chk, fb):
+    """R10.5: `is_zero` / `is_one` look through a single nested node without applying the outer unary composition; that is
+    only sound because lift_nodes removes every undecorated single-node wrapper before.  Decided: lift_nodes walks over the
+    nodes on every path except the one that replaces the whole expression (single node AND no unary composition)."""
+    chk.rule("R10.5", "lift_nodes: the wrapper-lifting pass over the nodes is skipped only when the expression is a single node without unary composition (then it is replaced as a whole)")
+    from analysis import rel as _rel
+    bs = fb.find_bodies(lambda b: b["kind"] == "Fn" and b["path"].endswith("deep::detail::lift_nodes"))
+    if len(bs) != 1:
+        chk.violation("R10.5", "anchor", "deep::detail::lift_nodes not found")
+        return
+    b = bs[0]
+
+    class PL(Policy):
+        loop_mode = "widen"
+        max_depth = 2
+    ps = [p for p in Interp(fb, PL()).run(b, [Sym("e")]) if p.status not in ("unreachable",)]
+    if any(p.status not in ("return", "loop-pruned") for p in ps):
+        chk.unrecognised("R10.5", "shape", "lift_nodes: %s" % [(p.status, p.note) for p in ps if p.status not in ("return", "loop-pruned")][:2], loc(b["span"]))
+        return
+    bad = None
+    n_skip = n_loop = 0
+    for p in ps:
+        looped = any(e[0] == "loophead" for e in p.events)
+        if looped:
+            n_loop += 1
+            continue
+        n_skip += 1
+        F = _rel.Facts(p)
+        single = any(op == "==" and {_rel.const_int(a), _rel.const_int(bb)} & {1} and "::len(" in (_rel.cstr(a) + _rel.cstr(bb)) and "nodes" in (_rel.cstr(a) + _rel.cstr(bb)) for a, op, bb in F.rel)
+        no_unary = any(op == "==" and {_rel.const_int(a), _rel.const_int(bb)} & {0} and "unary_op" in (_rel.cstr(a) + _rel.cstr(bb)) for a, op, bb in F.rel) or \
+            any(lab is True and "is_empty" in _rel.cstr(tt) and "unary_op" in _rel.cstr(tt) for tt, lab in F.true)
+        if not (single and no_unary):
+            bad = [(_rel.cstr(d[1])[:80], d[2]) for d in p.decisions][:4]
+    if bad is not None:
+        chk.violation("R10.5", "lift-skipped", "lift_nodes returns without visiting the nodes on a path that is not `single node and no unary composition` (%s): a wrapped literal under a unary function is then taken for the literal itself by is_zero/is_one" % bad, loc(b["span"]))
+    elif n_skip and n_loop:
+        chk.ok("R10.5", "lift_nodes skips the node pass only for a single node without unary composition", "%d skipping / %d visiting paths" % (n_skip, n_loop), loc(b["span"]))
+    else:
+        chk.unrecognised("R10.5", "paths", "lift_nodes paths: %d skipping, %d visiting" % (n_skip, n_loop), loc(b["span"]))
+
+
 def decided_some(p, pattern):
     """The path took the Some/Ok branch of a value matching `pattern` (match, `?`, or an Option/Result combinator)."""
     rx = re.compile(pattern)
@@ -96,6 +156,9 @@ def run(ctx):
     chk.rule("R10.1", "every shortcut outcome of Add/Mul/Div/pow is justified by the is_zero/is_one decisions on its path; the fall-through applies the impl's own operator name to (x, y)")
     chk.rule("R10.2", "Sub->'-', Neg->unary '-', and every attach_unary_op! helper passes its own name")
     chk.rule("R10.3", "unknown operator name => Err; lookup by name equality; Calculate wrappers convert -> apply -> convert back")
+    chk.rule("R10.4", "the by-name application methods of Calculate (operate_unary, operate_binary) have one implementation: no expression type overrides them")
+    no_overrides(chk, fb, "R10.4", "expression::calculate::Calculate", {"operate_unary", "operate_binary"}, "the homomorphism clauses R10.1-R10.3 are decided for the provided method only")
+    lift_invariant(chk, fb)
 
     def impl(trait, name):
         return fb.find_bodies(lambda b: b["kind"] == "AssocFn" and b.get("name") == name and b.get("impl_trait_path") == trait
@@ -224,9 +287,36 @@ def run(ctx):
             somes = [p for p in ps if isinstance(p.result, Variant) and p.result.variant == "Some"]
             if somes and all(any(d[2] is True and re.match(EQ, show(d[1])) for d in p.decisions) for p in somes):
                 good = True
+        # the index returned with the operator is its position in the WHOLE operator list (the conversions rely on it)
+        from analysis import loops as _loops, rel as _rel
+
+        class PF(_P):
+            def inline_closure(self, *a):
+                return False
+        allf = Interp(fb, PF()).run(fo[0], [Sym("repr"), Sym("ops")])
+        src_ok = None
+        for p in allf:
+            if p.status != "return":
+                continue
+            r = _rel.canon(p.result)
+            # closure idiom: map(find(enumerate(iter(ops)), pred), |(i, op)| (i, op.clone()))
+            for s_ in __import__("analysis.dispatch", fromlist=["subterms"]).subterms(r):
+                if isinstance(s_, App) and s_.fn in ("std::iter::Iterator::find", "std::iter::Iterator::position", "std::iter::Iterator::find_map") and s_.args:
+                    parts = _loops.seq_parts(s_.args[0], p, fo[0]["path"], 0, allf)
+                    ok_here = parts == [("src", "ops", "fwd")] and "Iterator::enumerate(" in _rel.cstr(s_.args[0])
+                    src_ok = ok_here if src_ok is None else (src_ok and ok_here)
+            # loop idiom: the loop's iterator on first arrival
+            ts = _loops.trips(p, fo[0]["path"], 0)
+            if ts:
+                its = [v for v in ts[0].pre.values() if "Iterator::enumerate(" in _rel.cstr(v)]
+                ok_here = any(_loops.seq_parts(v, p, fo[0]["path"], 0, allf) == [("src", "ops", "fwd")] for v in its)
+                src_ok = ok_here if src_ok is None else (src_ok and ok_here)
+        if src_ok is False or src_ok is None:
+            good = False
+            chk.violation("R10.3", "lookup-index", "find_op does not search the enumerated, complete operator list: the index stored with the operator is not its position in the operator table (conversions between the forms look operators up by this index)", loc(fo[0]["span"]))
         if good:
             chk.ok("R10.3", "find_op compares names for equality", "", loc(fo[0]["span"]))
-        else:
+        elif src_ok:
             chk.violation("R10.3", "lookup-predicate", "find_op does not select the operator whose name equals the requested one", loc(fo[0]["span"]))
     else:
         chk.violation("R10.3", "anchor:find_op", "find_op not found")
